@@ -193,7 +193,8 @@ def run_hist(case):
     classes = [Base, type("A", (Base,), {})]
     classes.append(type("B", (classes[1],), {}))
     classes.append(type("C", (Base,), {}))
-    parent = {0: None, 1: 0, 2: 1, 3: 0}
+    parent = {0: [], 1: [0], 2: [1], 3: [0]}      # class idx -> indices of its direct bases
+    order_free = set()                            # classes with more than one event-target base (and their descendants)
     insts = []                        # (obj, class idx)
     calls = []
     # model state
@@ -224,10 +225,12 @@ def run_hist(case):
         return out
 
     def is_sub(j, ci):
-        while j is not None:
-            if j == ci:
+        todo = [j]
+        while todo:
+            k = todo.pop()
+            if k == ci:
                 return True
-            j = parent[j]
+            todo.extend(parent[k])
         return False
 
     def resolve_target(t):
@@ -317,11 +320,34 @@ def run_hist(case):
                     out = "skip"
                 else:
                     pi = op[1] % len(classes)
-                    classes.append(type("K%d" % len(classes), (classes[pi],), {}))
+                    bases = [pi]
+                    if (op[1] // 16) % 3 == 0:
+                        # a second event-target base that is neither an ancestor nor a descendant of the first (consistent MRO)
+                        cand = [j for j in range(1, len(classes)) if not is_sub(j, pi) and not is_sub(pi, j)]
+                        if cand:
+                            bases.append(cand[(op[1] // 4) % len(cand)])
+                    try:
+                        newcls = type("K%d" % len(classes), tuple(classes[b] for b in bases), {})
+                    except TypeError:
+                        # no consistent MRO for these two bases (their own bases disagree on an order): single inheritance instead
+                        bases = bases[:1]
+                        newcls = type("K%d" % len(classes), (classes[pi],), {})
+                    classes.append(newcls)
                     ci = len(classes) - 1
-                    parent[ci] = pi
+                    parent[ci] = bases
+                    if len(bases) > 1 or any(b in order_free for b in bases):
+                        # the listeners of several bases are collected base by base (MRO) when the class is first seen: the relative
+                        # order across bases is not "registration order" and is not documented - only membership is judged there
+                        order_free.add(ci)
+                        bump("probe:multi_base_class")
+                    mro = [classes.index(c) for c in classes[ci].__mro__[1:] if c in classes]
                     for ev in EVS:
-                        cls_list[ev][ci] = list(cls_list[ev][pi])
+                        lst = []
+                        for anc in mro:
+                            for r in cls_list[ev][anc]:
+                                if not any(r is x for x in lst):
+                                    lst.append(r)
+                        cls_list[ev][ci] = lst
                     out = "ok"
                     bump("probe:class_created_during_history")
             elif kind == "mkinst":
@@ -408,8 +434,9 @@ def run_hist(case):
                     if sorted(gf) != sorted(wf):
                         V("dispatch_wrong_listeners", "dispatch called listeners %s, registered (model) %s" % (gf, wf), op=i)
                     elif gf != wf:
-                        V("dispatch_wrong_order", "dispatch order %s, registration order (model) %s" % (gf, wf), op=i)
-                    else:
+                        if ci not in order_free:
+                            V("dispatch_wrong_order", "dispatch order %s, registration order (model) %s" % (gf, wf), op=i)
+                    elif sorted(got) != sorted(want):
                         V("dispatch_wrong_arguments", "listener arguments %s, expected %s" % (got, want), op=i)
             trace.append([i, kind, out])
     finally:
